@@ -55,10 +55,7 @@ func registerStdIntrinsics(ip *Interp) {
 		f := ip.Prog.ImportedPackage("golang.org/x/text/cases").Func("Title")
 		return ip.zero(f.Signature.Results().At(0).Type())
 	})
-	ip.regStub("(golang.org/x/text/cases.Caser).String", func(ip *Interp, fr *frame, a []Value) Value {
-		in := a[1].(Str)
-		return ip.stubString("cases.Caser.String", in, len(in.B))
-	})
+	registerStd2(ip)
 }
 
 // ---------------------------------------------------------------- fmt
@@ -200,6 +197,22 @@ func registerFmt(ip *Interp) {
 		p := new(Value)
 		*p = Struct{s, wrapped}
 		return Iface{T: typesPointer(t.Type()), V: p}
+	})
+	ip.reg("fmt.Fprintf", func(ip *Interp, fr *frame, a []Value) Value {
+		f, ok := a[1].(Str).Concrete()
+		if !ok {
+			panic(unsupported("fmt.Fprintf with symbolic format"))
+		}
+		s, _ := ip.sprintf(f, variadicArgs(a[2]))
+		w := a[0].(Iface)
+		if w.T == nil {
+			ip.rtPanic("invalid memory address or nil pointer dereference (nil io.Writer)")
+		}
+		m := ip.findMethod(w.T, "Write")
+		if m == nil {
+			panic(unsupported("fmt.Fprintf: writer without Write"))
+		}
+		return ip.call(fr, m, []Value{w.V, ip.bytesSliceValue(s.B)})
 	})
 	ip.reg("fmt.Sprint", func(ip *Interp, fr *frame, a []Value) Value {
 		var out []*sym.Term
